@@ -37,6 +37,8 @@ def case_strategy(draw, tier):
         if top_ids and draw(st.integers(0, 4)) == 0 and r["k"] != "leaf":
             r["id"] = draw(st.sampled_from(top_ids[-2:] + top_ids))       # clash on purpose (biased to the special children)
         adds.append(r)
+    if draw(st.integers(0, 3)) == 0:
+        adds.insert(draw(st.integers(0, len(adds))), {"k": "reuse", "i": draw(st.integers(0, 9))})
     prios = [list(kv) for kv in sorted(draw(st.dictionaries(st.sampled_from(["a", "b", "c", "d", "e", "f"]),
                                                             st.sampled_from([1, 2, -1]), max_size=3)).items())]
     return {"model": base, "adds": adds, "prios": prios}
@@ -48,6 +50,14 @@ def rename(node, prefix):
             if c.get("id") is not None:
                 c["id"] = prefix + c["id"]
             rename(c, prefix)
+
+
+def _spec_of(spec, node_id):
+    """the spec of the (first) compound with this explicit id inside a configurator spec"""
+    for n in oracle.spec_nodes(spec):
+        if n.get("id") == node_id and n["k"] not in ("leaf", "ref", "Stingy"):
+            return n
+    return None
 
 
 def cfg_view(c, prios):
@@ -82,7 +92,19 @@ def check(case, ev):
     n_clash = 0
     defaulted_added = False
     for r in case["adds"]:
-        rule = build.node(r, [])
+        if r.get("k") == "reuse":
+            # the added rule is the very OBJECT that already sits nested inside one of the configurator's rules (a package
+            # required by an implication is now also made mandatory) - found by its id, which must not be a top-level id
+            nested = [x for x in oracle.walk(cur) if not oracle.is_leaf(x) and x is not cur and not x.generated_id
+                      and x.id not in [t.id for t in cur.propositions]]
+            if not nested:
+                continue
+            rule = sorted(nested, key=lambda x: x.id)[r["i"] % len(nested)]
+            r = _spec_of(cur_spec, rule.id)
+            if r is None:
+                continue
+        else:
+            rule = build.node(r, [])
         if isinstance(rule, str):
             import puan
             rule = puan.variable(rule)
